@@ -8,7 +8,8 @@ from vf.runner import use_repo
 
 LEVEL = 'exploration'
 RULE = ('Complete enumeration of (supported protocol version, state, '
-        'direction) tables: every class in get_packets(context) must resolve '
+        'direction) tables, walked three times (oldest first, newest first, '
+        'oldest first) with every pass judged and the passes compared: every class in get_packets(context) must resolve '
         'to a non-negative int id, ids pairwise distinct, and the id->class '
         'dict built by the matching PacketReactor must map every id to its '
         'owner, identically over repeated constructions.  A table is '
@@ -120,20 +121,43 @@ def run(ctx):
     mc = use_repo()
     supported = list(mc.SUPPORTED_PROTOCOL_VERSIONS)
     others = [v for v in mc.KNOWN_PROTOCOL_VERSIONS if v not in supported]
-    for v in supported:
-        for direction, state, _ in tables():
-            ctx.count()
-            res = check_table(ctx, v, direction, state)
-            if res is None:
-                continue
-            assign, bad = res
-            if len(assign) >= 2:
-                ctx.note((v, direction, state, tuple(assign)))
-            ctx.cls('%s/%s classes=%d' % (direction, state, len(assign)))
-            if v in (47, 757) and state in ('login', 'play') and \
-                    direction == 'clientbound':
-                ctx.sample({'version': v, 'table': '%s/%s' % (direction, state),
-                            'ids': {n: i for n, i in assign[:8]}})
+    # The tables must be functions of the version alone: the whole space is
+    # walked three times - oldest to newest, newest to oldest, and oldest to
+    # newest again - every pass is judged, and the passes must agree (a
+    # table polluted by an earlier call for another version shows up as a
+    # difference between passes or as a collision in a later pass).
+    first = {}
+    for npass, order in enumerate((supported, supported[::-1], supported)):
+        for v in order:
+            for direction, state, _ in tables():
+                ctx.count()
+                res = check_table(ctx, v, direction, state)
+                if res is None:
+                    continue
+                assign, bad = res
+                k = (v, direction, state)
+                if npass == 0:
+                    first[k] = assign
+                    if len(assign) >= 2:
+                        ctx.note((v, direction, state, tuple(assign)))
+                    ctx.cls('%s/%s classes=%d' % (direction, state,
+                                                  len(assign)))
+                    if v in (47, 757) and state in ('login', 'play') and \
+                            direction == 'clientbound':
+                        ctx.sample({'version': v,
+                                    'table': '%s/%s' % (direction, state),
+                                    'ids': {n: i for n, i in assign[:8]}})
+                elif assign != first.get(k):
+                    ctx.violation(
+                        'order-dependent v=%d %s/%s' % (v, direction, state),
+                        'protocol %d %s %s: the table depends on which '
+                        'tables were requested before: first %r, in pass %d '
+                        '(%s) %r' % (v, direction, state, first.get(k),
+                                     npass + 1, 'newest first' if npass == 1
+                                     else 'oldest first again', assign),
+                        {'version': v, 'direction': direction,
+                         'state': state, 'passes': True})
+    ctx.extra['passes'] = 3
     rep = 0
     for v in others:
         for direction, state, _ in tables():
@@ -147,6 +171,8 @@ def run(ctx):
 
 
 def replay(ctx, case):
+    if case.get('passes'):
+        return run(ctx)        # an order effect needs the whole walk
     use_repo()
     ctx.count()
     check_table(ctx, case['version'], case['direction'], case['state'])
